@@ -39,15 +39,18 @@ def _family(k):
 
 def run(ctx):
     # the two replayed families are independent: run them side by side (forked workers inherit ctx), the third one here
-    import multiprocessing
+    import concurrent.futures, multiprocessing
     _CTX[:] = [ctx]
-    with multiprocessing.get_context('fork').Pool(2) as pool:
-        ra, rb = pool.apply_async(_family, (0,)), pool.apply_async(_family, (1,))
+    with concurrent.futures.ProcessPoolExecutor(2, mp_context=multiprocessing.get_context('fork')) as pool:
+        ra, rb = pool.submit(_family, 0), pool.submit(_family, 1)
         f = c12_frac.run_family(ctx)        # oracle-only: counters and Monitor samples on non-integer packet sizes (outside the Lean replay)
         # oracle-only: the rate reassigned while the scheduler runs (rate-exact with the rate at the start of the transmission), next hops that
         # call back into put() or rewrite the packet (one at a time, never idle with a backlog, exactly once, FIFO, counters)
         g = dynsched.run_family(ctx, 'C12', dynsched.KINDS, ['rate', 'rate', 'reflect', 'relabel', 'resize'], ['service', 'conserve'], 360, 7200)
-        a, b = ra.get(), rb.get()
+        try:
+            a, b = ra.result(), rb.result()
+        except concurrent.futures.process.BrokenProcessPool:       # a worker died (killed by the OS for memory): run the families here
+            a, b = _family(0), _family(1)
     cov = {}
     ca, cb = a.get('coverage', {}), b.get('coverage', {})
     for k in ('evaluations', 'distinct_nontrivial', 'traces_validated_against_impl'):
